@@ -215,9 +215,9 @@ func encodeDirect(op *nativeOp) {
 func (w *world) planOp() *plan {
 	r := w.r
 	switch k := r.Intn(100); {
-	case k < 14:
+	case k < 20:
 		return w.planSigned()
-	case k < 22:
+	case k < 28:
 		return w.planTree()
 	}
 	sender := w.freeEOA(false)
@@ -337,6 +337,8 @@ var forgedClasses = []string{
 	"relay-by-other-eoa", "relay-by-contract", "signed-by-other-key", "other-chain-id", "other-verifying-contract",
 	"perturbed-validator", "perturbed-amount", "perturbed-action", "perturbed-delegator-to-contract", "contract-delegator-signed-by-eoa",
 	"malleated-s-same-v", "wrong-v-flipped", "wrong-v-out-of-range", "truncated", "zero-signature",
+	// the caller signs, with its OWN key, a message that names somebody else as delegator and submits it itself
+	"caller-signs-for-other-delegator",
 }
 
 var validClasses = []string{"valid", "valid", "valid", "valid-v-0-1", "valid-malleated-s-flipped-v"}
@@ -396,6 +398,13 @@ func (w *world) planSigned() *plan {
 			}
 		}
 	}
+	if class == "caller-signs-for-other-delegator" {
+		if other == signer || w.busy(other) {
+			class = "signed-by-other-key"
+		} else {
+			sender, caller = other, other.Addr // the attacker sends the transaction; the message still names `signer`
+		}
+	}
 	return w.ethPlanFn(sender, &to, nil, opGas, func(maxFee *big.Int) ([]byte, *plan) {
 		avail := new(big.Int).Sub(w.c.Balance(signer.Addr), maxFee)
 		if avail.Sign() < 0 {
@@ -413,7 +422,7 @@ func (w *world) planSigned() *plan {
 				s.V -= 27
 			case "valid-malleated-s-flipped-v":
 				s = malleate(s, true)
-			case "signed-by-other-key":
+			case "signed-by-other-key", "caller-signs-for-other-delegator":
 				s = signHash(other, hashSigned)
 			case "malleated-s-same-v":
 				s = malleate(s, false)
